@@ -292,7 +292,90 @@ def run_spec(spec, rec=None):
     return fails
 
 
+# ------------------------------------------------------------------ enumerated lanes: exact numbers, many sheets
+
+LONG_FLOATS = [0.6666666666666666, 0.3333333333333333, 1234567.890123457, -1.234567890123456e-300, 1.234567890123456e+300, 0.1428571428571428,
+               98765.43210987654, -0.006172839506172839, 2.718281828459045, 3.141592653589793, 1e-300, 123456789012345.6]
+
+
+def exact_cases():
+    """a reference yields the number the cell holds - the very double, not a neighbour that prints alike"""
+    for via in ('cell', 'override'):
+        for form in ('bare', 'abs', 'prefixed', 'other-sheet', 'max-area', 'index', 'sum-one'):
+            yield {'kind': 'exact', 'via': via, 'form': form}
+
+
+def run_exact(case):
+    vals = [v for v in LONG_FLOATS if float('%.16g' % v) == v]      # what the file format keeps
+    n = len(vals)
+    via, form = case['via'], case['form']
+    data = {f'A{i + 1}': (v if via == 'cell' else i + 1) for i, v in enumerate(vals)}
+    ov = [('D', 'A', str(i + 1), v) for i, v in enumerate(vals)] if via == 'override' else None
+    fs = []
+    for i in range(n):
+        r = i + 1
+        fs.append({'bare': f'=A{r}', 'abs': f'=$A${r}', 'prefixed': f'=D!A{r}', 'other-sheet': f'=D!$A{r}', 'max-area': f'=MAX(A{r}:A{r})',
+                   'index': f'=INDEX(A1:A{n},{r})', 'sum-one': f'=SUM(A{r})'}[form])
+    on = ['H' if form == 'other-sheet' else 'D'] * n
+    outs = wbk.eval_formulas([{'title': 'D', 'cells': data}, {'title': 'H', 'cells': {'A1': 1}}], fs, sheet='D', first_col=5, ncols=20, on=on, overrides=ov)
+    fails = []
+    for f, v, o in zip(fs, vals, outs):
+        if o[0] == 'timeout':
+            continue
+        if not (o[0] == 'value' and type(o[1]) is float and o[1] == v):
+            fails.append({'case': case, 'expected': repr(v), 'actual': wbk.show_outcome(o) if o[0] != 'value' else ['value', repr(o[1])], 'relation': 'coordinate-map-exact-number',
+                          'bucket': f'exact:{form}:{via}', 'extra': {'formula': f}})
+            break
+    return fails, n
+
+
+def many_cases():
+    for nsheets in (12, 13, 23):
+        for flavour in ('cells', 'areas', 'overrides'):
+            yield {'kind': 'many', 'nsheets': nsheets, 'flavour': flavour}
+
+
+def run_many(case):
+    """more than ten sheets, more than ten columns: every (sheet, column, row) is its own cell"""
+    ns, flavour = case['nsheets'], case['flavour']
+    ncols_, nrows_ = 13, 2
+    sheets = [{'title': f'S{si + 1}', 'cells': {f'{L(c)}{r}': code(si, c, r) for c in range(1, ncols_ + 1) for r in range(1, nrows_ + 1)}} for si in range(ns)]
+    fs, exps = [], []
+    ov = None
+    content = {(si, c, r): code(si, c, r) for si in range(ns) for c in range(1, ncols_ + 1) for r in range(1, nrows_ + 1)}
+    if flavour == 'overrides':
+        ov = []
+        for si in range(ns):
+            for c in (1, 2, 11, 12):
+                if (si + c) % 2 == 0:
+                    content[(si, c, 2)] = -code(si, c, 2)
+                    ov.append((f'S{si + 1}', L(c), '2', -code(si, c, 2)))
+    for si in range(ns):
+        for c in range(1, ncols_ + 1):
+            if flavour == 'areas':
+                fs.append(f'=SUM(S{si + 1}!{L(c)}1:{L(c)}2)')
+                exps.append(content[(si, c, 1)] + content[(si, c, 2)])
+            else:
+                r = 2 if flavour == 'overrides' else 1 + (si + c) % 2
+                fs.append(f'=S{si + 1}!{L(c)}{r}')
+                exps.append(content[(si, c, r)])
+    outs = wbk.eval_formulas(sheets + [{'title': 'Host', 'cells': {'A1': 1}}], fs, sheet='Host', first_col=3, ncols=40, overrides=ov)
+    fails = []
+    for f, e, o in zip(fs, exps, outs):
+        if o[0] == 'timeout':
+            continue
+        if not (o[0] == 'value' and type(o[1]) is int and o[1] == e):
+            fails.append({'case': case, 'expected': e, 'actual': wbk.show_outcome(o), 'relation': 'coordinate-map', 'bucket': f'many-sheets:{flavour}',
+                          'extra': {'formula': f}})
+            break
+    return fails, len(fs)
+
+
 def run_case(spec):
+    if spec.get('kind') == 'exact':
+        return run_exact(spec)[0]
+    if spec.get('kind') == 'many':
+        return run_many(spec)[0]
     return run_spec(spec)
 
 
@@ -405,10 +488,21 @@ NSHARD = 16
 
 def plan(tier):
     n = 130 if tier == 'quick' else 2500
-    return [{'kind': 'hyp', 'shard': i, 'examples': n} for i in range(NSHARD)]
+    return [{'kind': 'exact', 'shard': 50}, {'kind': 'many', 'shard': 51}, {'kind': 'many', 'shard': 52}, {'kind': 'many', 'shard': 53}] + \
+        [{'kind': 'hyp', 'shard': i, 'examples': n} for i in range(NSHARD)]
 
 
 def run_shard(spec, rec):
+    if spec['kind'] in ('exact', 'many'):
+        cases = list(exact_cases()) if spec['kind'] == 'exact' else [c for i, c in enumerate(many_cases()) if i % 3 == spec['shard'] - 51]
+        for case in cases:
+            fails, n = (run_exact if spec['kind'] == 'exact' else run_many)(case)
+            tags = ['lane:' + spec['kind']] + ([f'exact:{case["form"]}', 'via:' + case['via']] if spec['kind'] == 'exact' else [f'sheets:{case["nsheets"]}', 'many:' + case['flavour']])
+            rec.case(case, True, tags, sample={**case, 'references': n})
+            for f in fails:
+                rec.fail(**f)
+        return
+
     def body(s):
         for f in run_spec(s, rec):
             rec.fail(**f)
@@ -416,6 +510,8 @@ def run_shard(spec, rec):
 
 
 def shrink_candidates(spec):
+    if spec.get('kind') in ('exact', 'many'):
+        return
     qs = spec['queries']
     if len(qs) > 1:
         for q in qs:
